@@ -8,7 +8,7 @@ for pair in debug:c03 internal:c03 omp:c03 tbb:c03 debug:c12buf debug:c12val deb
             debug:c01 internal:c01 internalp:c01 omp:c01 tbb:c01 debug:c02 internal:c02 internalp:c02 omp:c02 tbb:c02 \
             debug:c13 internal:c13 omp:c13 tbb:c13 tbb:c14mt debug:c20trace debug:c20traceg debug:c20img \
             debug:c08chain debugn:c08chain debugn:c08 debugn:c12buf debugn:c12val debugn:c19 debugn:c20trace debugn:c20img \
-            asan:c14 asantbb:c14tbb glibc:c14glibc asan:c15 asan:c16 asann:c15 asann:c16; do
+            asan:c14 asantbb:c14tbb glibc:c14glibc asan:c15 asan:c16 asann:c15 asann:c16 debug:c16mt debugn:c16mt; do
   lane=${pair%%:*}; scen=${pair##*:}
   python3 tools/determinism.py $lane $scen $N 7 || rc=1
 done
